@@ -9,6 +9,8 @@ import (
 	"context"
 	"fmt"
 	"math"
+	"sort"
+	"strings"
 
 	"github.com/canopy-network/canopy/fsm"
 	"github.com/canopy-network/canopy/lib"
@@ -57,12 +59,17 @@ func Genesis(blockSizeExtra uint64) *fsm.GenesisState {
 
 // MkTx builds a transaction with a deterministic timestamp (fsm.NewTransaction uses the wall clock).
 func MkTx(key crypto.PrivateKeyI, msg lib.MessageI, fee, createdHeight, t uint64, memo string) []byte {
+	return MkTxOn(key, msg, fee, createdHeight, t, memo, env.ChainID)
+}
+
+// MkTxOn is MkTx for an arbitrary chain id.
+func MkTxOn(key crypto.PrivateKeyI, msg lib.MessageI, fee, createdHeight, t uint64, memo string, chainId uint64) []byte {
 	a, err := lib.NewAny(msg)
 	if err != nil {
 		panic(err)
 	}
 	tx := &lib.Transaction{MessageType: msg.Name(), Msg: a, CreatedHeight: createdHeight, Time: t, Fee: fee, Memo: memo,
-		NetworkId: env.NetworkID, ChainId: env.ChainID}
+		NetworkId: env.NetworkID, ChainId: chainId}
 	if e := tx.Sign(key); e != nil {
 		panic(e)
 	}
@@ -164,6 +171,7 @@ type Proposal struct {
 	Kept    [][]byte // r.Txs
 	LastQC  *lib.QuorumCertificate
 	BlkTime uint64
+	Index   string // indexer observations of the copy (double signers, latest Chain2 checkpoint), pending writes included
 }
 
 func BlockTime(h uint64) uint64 { return BaseTime + h*1_000_000 }
@@ -200,9 +208,32 @@ func ProposeOnCopy(c *env.Chain, txs [][]byte, proposer int, wantState bool) *Pr
 	}
 	p.Kept = p.Res.Txs
 	if wantState {
-		p.State, p.Err = env.RawState(cp)
+		if p.State, p.Err = env.RawState(cp); p.Err != nil {
+			return p
+		}
+		p.Index, p.Err = IndexObs(cp.Store().(lib.StoreI))
 	}
 	return p
+}
+
+// IndexObs renders the indexer content that transactions can write: double signers and the latest Chain2 checkpoint.
+func IndexObs(st lib.StoreI) (string, lib.ErrorI) {
+	ds, err := st.GetDoubleSigners()
+	if err != nil {
+		return "", err
+	}
+	var lines []string
+	for _, d := range ds {
+		hs := append([]uint64{}, d.Heights...)
+		sort.Slice(hs, func(i, j int) bool { return hs[i] < hs[j] })
+		lines = append(lines, fmt.Sprintf("ds %x %v", d.Id, hs))
+	}
+	sort.Strings(lines)
+	cp, err := st.GetMostRecentCheckpoint(Chain2)
+	if err != nil {
+		return "", err
+	}
+	return fmt.Sprintf("%s|cp %d %x", strings.Join(lines, ";"), cp.Height, cp.BlockHash), nil
 }
 
 // ---------------------------------------------------------------------------------------
